@@ -148,19 +148,77 @@ def check(tier):
         rep.failure("language", {"language"}, {"tokens": s, "parser": r, "sentence_of_documented_grammar": acc})
     for s, why, d in tree_bad[:3]:
         rep.failure("tree", {"tree"}, {"tokens": s, "why": why, "detail": d})
-    if not rok and not rep.violations:
-        # the regenerated file differs: look for the entry and a token sequence showing it
-        rep.violation("regeneration", {"theorem": "regenerating parsing_table.go reproduces the checked-in file", "detail": detail}, no_input=True)
-    if not ok and not rep.violations:
-        found = find_entry_difference(rep, T)
-        if not found:
+    if (not rok or not ok) and not rep.violations:
+        # the table is not the documented LALR(1) table (or regenerating it gives another file): search, guided by the table
+        # itself, for a token sequence on which the parser and the documented reading disagree
+        w = table_guided_search(T)
+        if w is not None:
+            rep.failure("language", {"language"}, w)
+        elif not rok:
+            rep.violation("regeneration", {"theorem": "regenerating parsing_table.go reproduces the checked-in file", "detail": detail}, no_input=True)
+        else:
             rep.violation("proof", {"theorem": "Props/C04.v", "log": log[-2500:]}, no_input=True)
     return rep.finish()
 
 
-def find_entry_difference(rep, T):
-    """The table is not the LALR(1) table: compare with the generator's output on a scratch copy and lift a differing entry to input."""
-    return False
+def table_guided_search(T):
+    """For every state of the CURRENT table a shortest token sequence that brings it on top of the stack; then that sequence
+    followed by each token kind (and by the end of input): the first one on which the table's verdict (accept / position of the
+    error) differs from the greedy recursive-descent reading of the documentation."""
+    from collections import deque
+
+    def feed(stack, a):
+        st = list(stack)
+        for _ in range(10000):
+            act = T.action.get((st[-1], a))
+            if act is None:
+                return None
+            k, p_ = act
+            if k == "SHIFT":
+                return st + [p_]
+            if k == "REDUCE":
+                head, body = T.prods[p_]
+                if body:
+                    del st[len(st) - len(body):]
+                st.append(T.goto.get((st[-1], head), T.err_state))
+            else:
+                return None
+        return None
+
+    names = list(T.terms)
+    seen, queue, reach = {0}, deque([([], [0])]), [([], [0])]
+    tops = {}
+    while queue:
+        seq, st = queue.popleft()
+        for k in names:
+            st2 = feed(st, T.tidx[k])
+            if st2 is None:
+                continue
+            key = tuple(st2[-3:])                 # the top of the stack (three states: enough to tell contexts apart)
+            if key in seen or len(seq) >= 14:
+                continue
+            seen.add(key)
+            queue.append((seq + [k], st2))
+            reach.append((seq + [k], st2))
+
+    def differs(seq):
+        _tr, oc = T.run([T.tidx[k] for k in seq])
+        rd = D.dictated_tree(seq, T)
+        if oc == "accept":
+            return None if rd[0] == "ok" else {"tokens": seq, "parser": "accepts", "documented_reading": "error at token %d" % rd[1]}
+        if isinstance(oc, tuple):
+            if rd[0] == "ok":
+                return {"tokens": seq, "parser": "error at token %d" % oc[1], "documented_reading": "accepts"}
+            if rd[1] != oc[1]:
+                return {"tokens": seq, "parser": "error at token %d" % oc[1], "documented_reading": "error at token %d" % rd[1]}
+        return None
+
+    for seq, _st in reach:
+        for tail in [[]] + [[k] for k in names] + [[k, ";"] for k in names]:
+            w = differs(seq + tail)
+            if w is not None:
+                return w
+    return None
 
 
 def replay(path):
